@@ -109,6 +109,87 @@ func init() {
 	}
 }
 
+// baseMembers: the members of the typedef that the restricted forms r / R refer to.
+const baseMembers = "a:~:-:-,b:~:-:-,c:~:-:-,d:~:-:-,e:~:-:-,f:~:-:-"
+
+func init() {
+	// enumproc <bits 0|1> <form> <steps> <members as in enummod>
+	// form: i = leaf l { type enumeration|bits { members } },  t = typedef t { ... } leaf l { type t; },
+	//       u = member of a union,  r = RESTRICTION of a typedef (YANG 1.1): typedef base { six members a..f }
+	//       leaf l { type base { members } },  R = the same through typedef base2 { type base; }.
+	// steps: a string of P (Modules.Process) and G (Modules.GetModule("m")), run on the SAME Modules one after the
+	// other.  -> "steps=<o|e per step> " + (views of l's table after the last step | "err")
+	handlers["enumproc"] = func(t []string) string {
+		bits := t[0] == "1"
+		body := typeBody(bits, t[3])
+		kind := "enumeration"
+		if bits {
+			kind = "bits"
+		}
+		var src string
+		switch t[1] {
+		case "i":
+			src = "leaf l { type " + body + " }"
+		case "t":
+			src = "typedef t { type " + body + " } leaf l { type t; }"
+		case "u":
+			src = "leaf l { type union { type " + body + " type string; } }"
+		case "r":
+			src = "typedef base { type " + typeBody(bits, baseMembers) + " } leaf l { type base " + strings.TrimPrefix(body, kind) + " }"
+		case "R":
+			src = "typedef base { type " + typeBody(bits, baseMembers) + " } typedef base2 { type base; } leaf l { type base2 " +
+				strings.TrimPrefix(body, kind) + " }"
+		default:
+			panic("bad form")
+		}
+		ms := yang.NewModules()
+		if err := ms.Parse("module m { yang-version \"1.1\"; namespace \"urn:m\"; prefix m; feature ft; "+src+" }", "m.yang"); err != nil {
+			return "parse-error " + strings.ReplaceAll(err.Error(), "\n", " ")
+		}
+		var verdicts strings.Builder
+		ok := false
+		for _, st := range t[2] {
+			var errs []error
+			switch st {
+			case 'P':
+				errs = ms.Process()
+			case 'G':
+				_, errs = ms.GetModule("m")
+			default:
+				panic("bad step")
+			}
+			ok = len(errs) == 0
+			if ok {
+				verdicts.WriteByte('o')
+			} else {
+				verdicts.WriteByte('e')
+			}
+		}
+		if !ok {
+			return "steps=" + verdicts.String() + " err"
+		}
+		l := yang.ToEntry(ms.Modules["m"]).Dir["l"]
+		if l == nil || l.Type == nil {
+			return "no-leaf"
+		}
+		yt := l.Type
+		if t[1] == "u" {
+			if len(yt.Type) == 0 {
+				return "no-union-member"
+			}
+			yt = yt.Type[0]
+		}
+		et := yt.Enum
+		if bits {
+			et = yt.Bit
+		}
+		if et == nil {
+			return "no-table"
+		}
+		return "steps=" + verdicts.String() + " " + enumViews(et)
+	}
+}
+
 // typeBody writes "enumeration { members }" / "bits { members }" from name:valuehex|~:pre:post,... (see enummod).
 func typeBody(bits bool, members string) string {
 	var b strings.Builder
